@@ -6,6 +6,7 @@ package c06
 
 import (
 	"bytes"
+	"crypto/ecdsa"
 	"fmt"
 	"math/big"
 
@@ -56,6 +57,20 @@ func errorThenGoodCase(t *engine.T, key Key) {
 		{"Sign(reader fails)", true, func() ([]byte, error) { return priv.Sign(faulty(engine.AnsErr), dig, nil) }, nil},
 		{"Sign(reader at EOF)", true, func() ([]byte, error) { return priv.Sign(faulty(engine.AnsEOF), msg, sm2.DefaultSM2SignerOpts) }, nil},
 		{"Sign(reader ends inside the nonce)", true, func() ([]byte, error) { return priv.Sign(faulty(engine.AnsShortEOF), dig, nil) }, nil},
+		// a public key whose coordinate does not fit the field size makes CalculateZA panic (documented); the caller
+		// recovers - whatever the library keeps behind ZA (pooled hash state) must not carry the interrupted call over
+		{"CalculateZA(33-byte coordinate: documented panic, recovered)", true, func() (out []byte, err error) {
+			defer func() {
+				if r := recover(); r != nil {
+					out, err = nil, fmt.Errorf("recovered: %v", r)
+				}
+			}()
+			bad := &ecdsa.PublicKey{Curve: sm2.P256(), X: new(big.Int).Lsh(big.NewInt(1), 260), Y: big.NewInt(1)}
+			if _, e := sm2.CalculateZA(bad, uid); e != nil {
+				return nil, e
+			}
+			return nil, fmt.Errorf("accepted (no panic, no error): nothing to recover from")
+		}, nil},
 	}
 	goods := []step{good1, good2}
 	runStep := func(hist string, st step) bool {
